@@ -113,6 +113,10 @@ impl<H: Hal, T: Transport> VirtIOSound<H, T> {
 
         // set pcm params to default
         let mut pcm_parameters = vec![];
+        // The stream count comes from the device: fail instead of aborting if it cannot be allocated.
+        pcm_parameters
+            .try_reserve_exact(streams as usize)
+            .map_err(|_| Error::DmaError)?;
         for _ in 0..streams {
             pcm_parameters.push(PcmParameters::default());
         }
